@@ -22,6 +22,13 @@ def judge(run, verdicts, describe=None, known=None):
     for v in verdicts:
         if v["kind"].startswith("harness:"):
             raise Infra("trace spec rejected a harness event as malformed: %s %s" % (v["kind"], json.dumps(v["event"])[:300]))
+        if v["kind"].startswith("drift:"):
+            # implementation-shaped layer disagrees: MODEL-DRIFT diagnostic, never a violation (DESIGN section 5, rule 4)
+            run.cov["model_drift"] = run.cov.get("model_drift", 0) + 1
+            run.cov.setdefault("model_drift_samples", [])
+            if len(run.cov["model_drift_samples"]) < 5:
+                run.cov["model_drift_samples"].append(v["kind"][:300])
+            continue
         k = known(v) if known else None
         if k:
             nk[k] = nk.get(k, 0) + 1
@@ -267,7 +274,7 @@ def lang_check(run, fams, pid_for, modes, deep, valid, edits, nbytes):
         with open(allin, "w") as o:
             for p in files:
                 o.write(open(p).read())
-        s = harness_json(run, ["lang", "-fam", fam, "-in", allin, "-valid", str(valid), "-edits", str(edits), "-bytes", str(nbytes),
+        s = harness_json(run, ["lang", "-fam", fam, "-in", allin, "-valid", str(valid), "-edits", str(edits), "-bytes", str(nbytes), "-steps", "4000",
                                "-deep=%s" % ("true" if deep else "false"), "-out", run.work, "-tier", run.tier, "-pid", run.pid])
         verdicts = vlib.validate_trace(run, "Trace_Lang", s["chunks"], pid=pid_for(fam), label="lang-" + fam)
         judge(run, verdicts, describe=lambda ev: (ev.get("s") or ev.get("a", {}).get("s", ""))[:200])
@@ -413,8 +420,23 @@ def check_C12(run):
 
 def check_C15(run):
     s = object_histories(run, "C15", 3)
-    o = harness_json(run, ["orders", "-n", "2000" if run.quick else "60000", "-out", run.work, "-tier", run.tier, "-pid", "C15"])
-    verdicts = vlib.validate_trace(run, "Trace_Objects", o["chunks"], pid="C15", label="orders")
+    # the same vectors in three processing orders, each in a FRESH process; joined per vector for TLC
+    per = {}
+    for od in ("fwd", "rev", "shuf"):
+        o = harness_json(run, ["orders", "-n", "2000" if run.quick else "60000", "-order", od, "-out", run.work, "-tier", run.tier, "-pid", "C15"])
+        for e in vlib.read_ndjson(o["chunks"][0]):
+            per.setdefault(e["idx"], {"k": "order", "fam": e["fam"], "lvl": e["lvl"], "s": e["s"]})[{"fwd": "a", "rev": "b", "shuf": "c"}[od]] = e["r"]
+    joined = [v for k, v in sorted(per.items()) if all(x in v for x in "abc")]
+    if len(joined) != len(per):
+        raise Infra("orders: the three processes did not process the same vectors")
+    nchunk = 16
+    paths = []
+    for i in range(nchunk):
+        pth = run.path("orders.%d.ndjson" % i)
+        vlib.write_ndjson(pth, joined[i::nchunk])
+        paths.append(pth)
+    o["observations"], o["distinct"] = len(joined), len(joined)
+    verdicts = vlib.validate_trace(run, "Trace_Objects", paths, pid="C15", label="orders")
     judge(run, verdicts, describe=lambda ev: ev.get("s", "")[:200])
     run.cov.update(o["extra"])
     run.assumptions += ["object state = exported fields (read through the harness constant tables) + the unexported names maps (read by reflection) "
@@ -422,7 +444,7 @@ def check_C15(run):
     return dict(level=MC, rule="every history MC_Objects generates is executed; after each step the snapshot of every live object and the table digest "
                 "are recorded; TLC checks each query as a stuttering step of Objects (snapshots and tables UNCHANGED), that repeated calls agree and "
                 "that the result equals the one of a freshly decoded twin; plus %d vectors (with near-duplicates: other version, other level, one edit) "
-                "decoded in three processing orders with report construction interleaved" % o["extra"]["vectors"],
+                "decoded in three processing orders (each in a fresh process) with report construction interleaved" % o["extra"]["vectors"],
                 evaluations=s["observations"] + o["observations"] * 3, distinct_nontrivial=s["distinct"] + o["distinct"], exhaustive=False)
 
 
